@@ -74,6 +74,9 @@ func exerciseDecoded(c *core.Case, e *entry, v any, where string) {
 		})
 	case *disco.Caps:
 		guard(c, typ, "accessors("+where+")", func() { _ = t.Hash.String() })
+	default:
+		// no surface beyond the encoders, which every caller has already run on this value
+		return
 	}
 	// every type: write it again after the accessors ran
 	encs, p := encodeAll(c, typ, v)
@@ -174,13 +177,9 @@ func exerciseForm(c *core.Case, d *form.Data, where string) {
 	if err == nil {
 		wellFormed(c, "form.Data", "Submit after decode", sub)
 	}
-	encs, p := encodeAll(c, "form.Data", d)
-	if p {
+	var b []byte
+	if guard(c, "form.Data", "MarshalXML("+where+", after Set)", func() { b, err = xml.Marshal(d) }) || err != nil {
 		return
 	}
-	for _, en := range encs {
-		if en.Err == nil {
-			wellFormed(c, "form.Data", en.Form+" after decode and Set", en.B)
-		}
-	}
+	wellFormed(c, "form.Data", "MarshalXML after decode and Set", b)
 }
